@@ -460,7 +460,8 @@ class Session(object):
         hosts_end = max([i for i, x in enumerate(st) if x.startswith((b"h:", b"s:", b"t:"))] + [0]) + 1
         site = b"".join(st[:hosts_end])
         base = site + r.choice([b"", b"p:europe|"])
-        names = r.sample([b"p:france|", b"p:spain|", b"p:italy|", b"p:austria|", b"p:zambia|", b"p:m|", b"p:k|", b"p:b|"], r.randint(4, 6))
+        names = r.sample([b"p:france|", b"p:france2|", b"p:fr|", b"p:spain|", b"p:italy|", b"p:austria|", b"p:zambia|", b"p:m|", b"p:k|",
+                          b"p:k1|", b"p:b|", b"p:b-c|"], r.randint(4, 7))      # some stems are prefixes of a sibling ('|' sorts after letters and digits)
         pages = [base + n for n in names]
         nested = pages[r.choice([0, 0, 1])]
         sub = [nested + b"p:%c|" % c for c in r.sample(list(b"cabz"), r.randint(1, 3))]
